@@ -490,8 +490,13 @@ Definition act (s : st) : st :=
   | PdHdrResp => match pc s with PWaitH => set_pc PAfterH (respond s) | _ => set_pc (PErr "act") s end
   | PdData => match pc s with PWaitD r => set_pc (PBody r) s | _ => set_pc (PErr "act") s end
   | PdResp =>
-      let s := respond s in
-      match pc s with PWaitFin => if ffd s then set_pc (PEnd true) s else s | _ => s end
+      (* the response of an asynchronous handler: the connection is either still waiting for it
+         (_finish_future) or its request loop has already exited *)
+      match pc s with
+      | PWaitFin => let s := respond s in if ffd s then set_pc (PEnd true) s else s
+      | PExited => respond s
+      | _ => set_pc (PErr "act") s
+      end
   end.
 
 (* body_timeout elapses: gen.with_timeout raises TimeoutError in _read_message, which cancels the body
